@@ -53,6 +53,10 @@ fn alphabet(name: &str, seed: u64) -> Vec<f64> {
         "S4" => &[0.0, 1.0, -1.0, 3.0],
         "S3" => &[0.0, 1.0, -1.0],
         "B2" => &[0.0, 1.0],
+        // decimal binary: inexact entries of magnitude 0.1 (rounding residues of exactly singular data fall below eps)
+        "D2" => &[0.0, 0.1],
+        // thirds: inexact entries of magnitude 1/3
+        "T2" => &[0.0, 1.0 / 3.0],
         _ => panic!("alphabet {}", name),
     };
     let (a, b) = PERTURB[(seed % 8) as usize];
@@ -106,7 +110,7 @@ fn lattice_space(t: bool) -> Vec<(usize, usize, &'static str)> {
         v.push((4, 3, "S3"));
         v.push((2, 4, "S4"));
         v.push((3, 4, "S3"));
-        v.push((5, 4, "B2"));
+        v.push((5, 4, "T2"));
     } else {
         for n in 2..=8 {
             v.push((n, 1, "S4"));
@@ -124,7 +128,9 @@ fn lattice_space(t: bool) -> Vec<(usize, usize, &'static str)> {
         v.push((3, 4, "S3"));
         v.push((4, 4, "B2"));
         v.push((5, 4, "B2"));
-        v.push((6, 4, "B2"));
+        v.push((5, 4, "D2"));
+        v.push((5, 4, "T2"));
+        v.push((6, 4, "T2"));
         v.push((2, 5, "S3"));
         v.push((3, 5, "B2"));
         v.push((4, 5, "B2"));
